@@ -1,13 +1,17 @@
 pub mod c01;
+pub mod c05;
+pub mod c06;
+pub mod c08;
 pub mod c11;
 pub mod c13;
 pub mod c14;
 pub mod c18;
 pub mod c19;
 pub mod common;
+pub mod solvecmp;
 
 use crate::runner::Prop;
 
 pub fn all() -> Vec<Prop> {
-    vec![c01::prop(), c11::prop(), c13::prop(), c14::prop(), c18::prop(), c19::prop()]
+    vec![c01::prop(), c05::prop(), c06::prop06(), c06::prop07(), c08::prop(), c11::prop(), c13::prop(), c14::prop(), c18::prop(), c19::prop()]
 }
